@@ -13,7 +13,7 @@ import (
 func (x *fnv) evalCall(s *State, call *ast.CallExpr) []Value {
 	res := x.evalCall0(s, call)
 	if x.fc != nil && len(x.fc.Ats) > 0 {
-		x.runAts(s, types.ExprString(call.Fun), call, true, res, nil)
+		x.runAts(s, types.ExprString(call.Fun), call, true, res, nil, nil)
 	}
 	return res
 }
@@ -85,7 +85,7 @@ func (x *fnv) evalCall0(s *State, call *ast.CallExpr) []Value {
 	}
 	args := x.evalArgs(s, call, sig)
 	name := types.ExprString(call.Fun)
-	x.runAts(s, name, call, false, nil, args)
+	x.runAts(s, name, call, false, nil, args, recv)
 
 	if tgt != nil && tgt.obj != nil {
 		if res, ok := x.modelCall(s, tgt.obj, recv, args, call); ok {
